@@ -20,8 +20,10 @@
    * TYPE and CLASS fields: the mnemonics (A NS MD MF CNAME SOA MB MG MR WKS PTR HINFO MINFO MX
      TXT AAAA SRV; IN CH HS) in any mix of upper and lower case, and `TYPEnnn` / `CLASSnnn`;
    * RDATA (`C23_rdata_partial`): `\# len hex` for any class and type, checked against
-     `Rdata::validate`; and the typed syntaxes of NS MD MF CNAME MB MG MR PTR (one name), MX, SOA,
-     MINFO, SRV — names absolute, relative or `@`, in any octet forms, with the lines they span;
+     `Rdata::validate`; and the typed syntaxes of A (IN), NS MD MF CNAME MB MG MR PTR (one name),
+     MX, SOA, MINFO, SRV (IN), TXT, HINFO — names absolute, relative or `@`, in any octet forms;
+     character-strings quoted or unquoted, each octet raw, `\X` or `\DDD`, with raw newlines inside
+     quotes; all with the lines they span;
    * records assembled from these, with TTL and class each written or omitted, in either order (context
      defaults: `$TTL` default before previous TTL; previous class), owner absolute / relative /
      `@` / omitted (leading blanks ⇒ previous owner); `$ORIGIN` and `$TTL` directive lines; blank
@@ -29,9 +31,9 @@
    * whole files of such entries: exactly the denoted records, in order, with line numbers
      (`C23_records_partial`).
   NOT PROVED (the gap; the name says `_partial`)
-     the typed RDATA syntaxes of A, TXT, HINFO (presentation AST and denotation are in the Spec,
-     `WFRdata` excludes them), AAAA, WKS, Chaosnet A; parentheses across lines, CRLF, a last
-     line without newline.  These are covered on every run by the correspondence oracle, which is
+     the typed RDATA syntaxes of AAAA, WKS and Chaosnet A (not in the presentation AST: in the
+     subset they can be written in `\#` form); parentheses across lines, CRLF, a last line
+     without newline.  These are covered on every run by the correspondence oracle, which is
      independent of these proofs: the harness's pretty-printer renders random record lists with
      random choices for *all* of the above and the expected parse is the generating record list
      (op `zfp`, spec column = expected records).
@@ -109,9 +111,9 @@ theorem C23_generic_rdata (ctx : Ctx) (cls ty : Nat) (h41 : ty ≠ 41) (h250 : t
       .ok (rd, ⟨r, line + 1, false⟩) :=
   parseRdata_generic ctx cls ty h41 h250 sep rd ws cmt r hne hsep hlen hvalid hws hc line
 
-/-- **RDATA**, generic or typed (the kinds admitted by `WFRdata`: `\#`, one-name types, MX, SOA,
-    MINFO, SRV): the text, up to the end of the line, is read as the RDATA it denotes, and the
-    line count advances by the newlines inside names plus one -/
+/-- **RDATA**, generic or typed (the kinds of `PRdata`: `\#`, A, one-name types, MX, SOA, MINFO,
+    SRV, TXT, HINFO): the text, up to the end of the line, is read as the RDATA it denotes, and the
+    line count advances by the newlines inside names and strings plus one -/
 theorem C23_rdata_partial (ctx : Ctx) (hctx : CtxWF ctx) (cls ty : Nat) (h41 : ty ≠ 41) (h250 : ty ≠ 250)
     (sep ws cmt r : List UInt8) (hne : sep ≠ []) (hsep : ∀ x ∈ sep, isWs x = true)
     (hws : ∀ x ∈ ws, isWs x = true) (hc : commentOK cmt) (rd : PRdata) (hwf : WFRdata rd)
@@ -152,14 +154,22 @@ private theorem mNs : WFType (.mnemonic [78, 115] 2) := ⟨"NS", by decide, by d
 private theorem mMx : WFType (.mnemonic [109, 120] 15) := ⟨"MX", by decide, by decide +kernel⟩
 private theorem mSoa : WFType (.mnemonic [83, 79, 65] 6) := ⟨"SOA", by decide, by decide +kernel⟩
 private theorem mSrv : WFType (.mnemonic [83, 114, 118] 33) := ⟨"SRV", by decide, by decide +kernel⟩
+private theorem mA : WFType (.mnemonic [97] 1) := ⟨"A", by decide, by decide +kernel⟩
+private theorem mTxt : WFType (.mnemonic [116, 120, 116] 16) := ⟨"TXT", by decide, by decide +kernel⟩
+private theorem mHinfo : WFType (.mnemonic [72, 105, 110, 102, 111] 13) := ⟨"HINFO", by decide, by decide +kernel⟩
 private theorem mMinfo : WFType (.mnemonic [77, 73, 78, 70, 79] 14) := ⟨"MINFO", by decide, by decide +kernel⟩
 
 private def nA : PName := .rel [] [(97, .raw)]
 private def nMail : PName := .abs [[(109, .raw), (92, .esc), (10, .esc)], [(120, .dec)]]
+/-- `"a<newline>b\""`, `c\;d`, `\100` -/
+private def sQ : PString := ⟨true, [(97, .raw), (10, .raw), (98, .raw), (34, .esc)]⟩
+private def sU : PString := ⟨false, [(99, .raw), (59, .esc), (100, .raw)]⟩
+private def sD : PString := ⟨false, [(100, .dec)]⟩
 
 /-- `$ORIGIN t.` / `a\.b.\010c. iN 5 TYPE1 \# 4 01020304 ;x` / (blank) / ` TYPE16 \# 2 0161` /
     `$TTL 9` / `w CLASS3 TYPE99 \# 0` / `@ Ns a` / ` mx 10 m\\\<newline>.\120.` (two lines) /
-    ` SOA @ a 1 2 3 4 4294967295` / `a 7 iN Srv 1 2 3 @` / ` MINFO a m\\\<newline>.\120.` -/
+    ` SOA @ a 1 2 3 4 4294967295` / `a 7 iN Srv 1 2 3 @` / ` MINFO a m\\\<newline>.\120. ;` /
+    ` a 192.0.2.1` / ` txt "a<newline>b\"" c\;d \100` (two lines) / ` Hinfo "" \100` -/
 def exFile : List PEntry :=
   [.origin [[(116, .raw)]] [32] [] [],
    .record ⟨.named (.abs [[(97, .raw), (46, .esc), (98, .raw)], [(10, .dec), (99, .raw)]]), some 5,
@@ -173,9 +183,12 @@ def exFile : List PEntry :=
    .record ⟨.same, none, none, true, .mnemonic [83, 79, 65] 6, .soa .atSign nA 1 2 3 4 4294967295, [32], [], []⟩,
    .record ⟨.named nA, some 7, some (.mnemonic [105, 78] 1), false, .mnemonic [83, 114, 118] 33,
       .srv 1 2 3 .atSign, [9], [], []⟩,
-   .record ⟨.same, none, none, true, .mnemonic [77, 73, 78, 70, 79] 14, .minfo nA nMail, [32], [32], [59]⟩]
+   .record ⟨.same, none, none, true, .mnemonic [77, 73, 78, 70, 79] 14, .minfo nA nMail, [32], [32], [59]⟩,
+   .record ⟨.same, none, none, true, .mnemonic [97] 1, .a 192 0 2 1, [32], [], []⟩,
+   .record ⟨.same, none, none, true, .mnemonic [116, 120, 116] 16, .txt sQ [sU, sD], [32], [], []⟩,
+   .record ⟨.same, none, none, true, .mnemonic [72, 105, 110, 102, 111] 13, .hinfo ⟨true, []⟩ sD, [32], [], []⟩]
 
-/-- the example file is well-formed and denotes nine records -/
+/-- the example file is well-formed and denotes eleven records -/
 theorem exFile_ok :
     (∀ e ∈ exFile, WFEntry e) ∧
     denoteFile validB exFile (toSCtx {}) 1 =
@@ -187,7 +200,10 @@ theorem exFile_ok :
             ⟨10, [1, 116, 0], 9, 3, 6, [1, 116, 0, 1, 97, 1, 116, 0, 0, 0, 0, 1, 0, 0, 0, 2, 0, 0, 0, 3,
               0, 0, 0, 4, 255, 255, 255, 255]⟩,
             ⟨11, [1, 97, 1, 116, 0], 7, 1, 33, [0, 1, 0, 2, 0, 3, 1, 116, 0]⟩,
-            ⟨12, [1, 97, 1, 116, 0], 9, 1, 14, [1, 97, 1, 116, 0, 3, 109, 92, 10, 1, 120, 0]⟩] := by
+            ⟨12, [1, 97, 1, 116, 0], 9, 1, 14, [1, 97, 1, 116, 0, 3, 109, 92, 10, 1, 120, 0]⟩,
+            ⟨14, [1, 97, 1, 116, 0], 9, 1, 1, [192, 0, 2, 1]⟩,
+            ⟨15, [1, 97, 1, 116, 0], 9, 1, 16, [4, 97, 10, 98, 34, 3, 99, 59, 100, 1, 100]⟩,
+            ⟨17, [1, 97, 1, 116, 0], 9, 1, 13, [0, 1, 100]⟩] := by
   refine ⟨?_, by decide +kernel⟩
   have wfA : WFName nA := by unfold nA WFName; exact ⟨by decide, by simp [LabelsOK, labelOctets], by decide⟩
   have wfMail : WFName nMail := by
@@ -196,7 +212,7 @@ theorem exFile_ok :
     intro n h; cases h
   intro e he
   simp only [exFile, List.mem_cons, List.mem_nil_iff, or_false] at he
-  rcases he with rfl | rfl | rfl | rfl | rfl | rfl | rfl | rfl | rfl | rfl | rfl
+  rcases he with rfl | rfl | rfl | rfl | rfl | rfl | rfl | rfl | rfl | rfl | rfl | rfl | rfl | rfl
   · exact ⟨⟨by simp, by decide, by simp [LabelsOK, labelOctets], by decide⟩, by simp, by decide, by decide, .inl rfl⟩
   · refine ⟨by simp, by decide, by decide, .inr ⟨[120], rfl, by decide⟩, ?_, by decide, ?_,
       ⟨by simp [WFType], by decide, by decide, by decide⟩, by simp [WFRdata]⟩
@@ -226,6 +242,15 @@ theorem exFile_ok :
     · intro c hc; cases hc; exact mIN
   · exact ⟨by simp, by decide, by decide, .inr ⟨[], rfl, by simp⟩, noOwner, by decide, (by intro c hc; cases hc),
       ⟨mMinfo, by decide, by decide, by decide⟩, ⟨wfA, wfMail, by decide⟩⟩
+  · exact ⟨by simp, by decide, by decide, .inl rfl, noOwner, by decide, (by intro c hc; cases hc),
+      ⟨mA, by decide, by decide, by decide⟩, ⟨by decide, by decide, by decide, by decide⟩⟩
+  · refine ⟨by simp, by decide, by decide, .inl rfl, noOwner, by decide, (by intro c hc; cases hc),
+      ⟨mTxt, by decide, by decide, by decide⟩, ⟨?_, by decide, by decide⟩⟩
+    intro x hx
+    simp only [List.mem_cons, List.mem_nil_iff, or_false] at hx
+    rcases hx with rfl | rfl | rfl <;> exact ⟨by decide, by decide, by decide⟩
+  · exact ⟨by simp, by decide, by decide, .inl rfl, noOwner, by decide, (by intro c hc; cases hc),
+      ⟨mHinfo, by decide, by decide, by decide⟩, ⟨⟨by decide, by decide, by decide⟩, ⟨by decide, by decide, by decide⟩, by decide⟩⟩
 
 /-- … so the theorem applies to it -/
 example : parseAll (renderFile exFile) {} =
@@ -237,13 +262,16 @@ example : parseAll (renderFile exFile) {} =
      .item (.record 10 ⟨[1, 116, 0], 9, 3, 6, [1, 116, 0, 1, 97, 1, 116, 0, 0, 0, 0, 1, 0, 0, 0, 2, 0, 0, 0, 3,
               0, 0, 0, 4, 255, 255, 255, 255]⟩),
      .item (.record 11 ⟨[1, 97, 1, 116, 0], 7, 1, 33, [0, 1, 0, 2, 0, 3, 1, 116, 0]⟩),
-     .item (.record 12 ⟨[1, 97, 1, 116, 0], 9, 1, 14, [1, 97, 1, 116, 0, 3, 109, 92, 10, 1, 120, 0]⟩)] := by
+     .item (.record 12 ⟨[1, 97, 1, 116, 0], 9, 1, 14, [1, 97, 1, 116, 0, 3, 109, 92, 10, 1, 120, 0]⟩),
+     .item (.record 14 ⟨[1, 97, 1, 116, 0], 9, 1, 1, [192, 0, 2, 1]⟩),
+     .item (.record 15 ⟨[1, 97, 1, 116, 0], 9, 1, 16, [4, 97, 10, 98, 34, 3, 99, 59, 100, 1, 100]⟩),
+     .item (.record 17 ⟨[1, 97, 1, 116, 0], 9, 1, 13, [0, 1, 100]⟩)] := by
   rw [C23_records_partial exFile exFile_ok.1 {} CtxWF_default _ exFile_ok.2]
   rfl
 
 /-- the same file, evaluated directly: the text is what it is meant to be and the parser yields
-    eight records -/
-example : (parseAll (renderFile exFile) {}).length = 8 := by decide +kernel
+    eleven records -/
+example : (parseAll (renderFile exFile) {}).length = 11 := by decide +kernel
 
 /-- RDATA alone: `10 mail` after the type field of an MX record, origin `t.` -/
 example : parseRdata { origin := some [1, 116, 0] } 1 15
